@@ -34,7 +34,7 @@ func init() {
 // AltClientBuilders lets other files (light-client models) contribute client /
 // consensus states of a non-Tendermint type for the "upgrade to another type"
 // and "create" payloads.
-var AltClientBuilders []func() (exported.ClientState, exported.ConsensusState, string)
+var AltClientBuilders []func(c *core.Ctx) (exported.ClientState, exported.ConsensusState, string)
 
 type c15Env struct {
 	c *core.Ctx
@@ -177,7 +177,8 @@ func runC15(c *core.Ctx) {
 			var csX exported.ClientState = cs
 			var consX exported.ConsensusState = cons
 			if len(AltClientBuilders) > 0 && ch.Bool(1, 2) {
-				x, y, _ := AltClientBuilders[ch.Int(len(AltClientBuilders))]()
+				x, y, _ := AltClientBuilders[ch.Int(len(AltClientBuilders))](c)
+				w.Stats.Inc("probe-upgrade-to-other-client-type")
 				csX, consX, other = x, y, true
 			}
 			oldType, existed := v.clients[name]
